@@ -78,6 +78,22 @@ Frozen(ticks, r) ==
     shape \in {8, 10, 12, 14} /\
     \E c \in 0..2 : Bit(r[8], c) = 1 /\ Bit(r[8], c + 3) = 1 /\ Bit(r[9 + c], 4) = 1 /\ LongestFlat(ticks, c) > 2 * ep + 1
 
+\* "a tone-enabled channel is a square wave of frequency f_clk/(16*TP) (12-bit TP, 0 acting as 1)" - for the registers in
+\* force, however they got there: on a channel with tone on, noise off and a fixed volume above 0, every stretch of
+\* equal level that lies inside a run lasts exactly TP ticks (the first and the last one, cut by the run, at most TP)
+TonePeriodOf(r, c) == LET p == r[2 * c + 1] + 256 * (r[2 * c + 2] % 16) IN IF p = 0 THEN 1 ELSE p
+StretchesOk(ticks, c, tp) ==
+    LET fin == FoldLeft(LAMBDA a, t : LET v == t[c + 1] IN
+                            IF a.cur = -1 THEN [a EXCEPT !.cur = v, !.len = 1]
+                            ELSE IF v = a.cur THEN [a EXCEPT !.len = @ + 1]
+                            ELSE [cur |-> v, len |-> 1, first |-> FALSE,
+                                  ok |-> a.ok /\ (IF a.first THEN a.len <= tp ELSE a.len = tp)],
+                        [cur |-> -1, len |-> 0, first |-> TRUE, ok |-> TRUE], ticks)
+    IN fin.ok /\ fin.len <= tp
+ToneOff(ticks, r) ==
+    \E c \in 0..2 : /\ Bit(r[8], c) = 0 /\ Bit(r[8], c + 3) = 1 /\ Bit(r[9 + c], 4) = 0 /\ r[9 + c] % 16 > 0
+                    /\ ~StretchesOk(ticks, c, TonePeriodOf(r, c))
+
 HistStep(acc, o) ==
     IF o[1] = "w" THEN
         [acc EXCEPT !.regs[o[2] + 1] = o[3], !.k = @ + 1, !.sinceW13 = @ \/ o[2] = 13,
@@ -101,6 +117,7 @@ HistStep(acc, o) ==
                                THEN LET i == CHOOSE x \in badTicks : \A y \in badTicks : x <= y
                                     IN <<acc.k + 1, i, ticks[i], r, acc.n>>
                                ELSE IF acc.sinceW13 /\ Frozen(ticks, r) THEN <<acc.k + 1, 0, "envelope at rest", r, acc.n>>
+                               ELSE IF ToneOff(ticks, r) THEN <<acc.k + 1, 0, "tone period", r, acc.n>>
                                ELSE @]
 Hist(e) ==
     LET fin == FoldLeft(HistStep, [regs |-> [k \in 1..14 |-> 0], n |-> -1, k |-> 0, bad |-> <<>>, sinceW13 |-> FALSE], e.ops)
